@@ -179,6 +179,7 @@ const FILE_LINES: &[&str] = &[
     "40 PRINT \"é\" + 1", "50 REM é 😊", "15 FOR I = 1 TO 2: NEXT I\r", "20 DEF F(X) = X: PRINT F(Y)", "60 A$ = 1", "  70 END",
     "20 Y = A$ = B$", "80 IF X THEN 10 ELSE 20", "80 IF X THEN PRINT \"日本\" ELSE GOSUB 10", "90 DIM A(3): A(1) = 2: PRINT A(1)",
     "90 READ A, B$: DATA 1, \"x\"", "95 INPUT Q$", "95 NEXT", "97 PRINT F(1)", "98 S$ = S$ = T$", "99 PRINT +\"A\"", "\t", "   ", "10 😊", "5 DATA é, \"é\": PRINT \"é\" - 1",
+    "\u{feff}10 PRINT \"€\";X", "\u{feff}20 REM é", "\u{feff}", "\u{feff}PRINT 1", "30 PRINT \"\u{feff}\" + 1",
     "２０ PRINT 1", "1０ PRINT 2", "① x", "² y", "١٠ PRINT 1", " ２ REM", "10 PRINT ２",
     "18446744073709551615 END", "18446744073709551616 END", "0 PRINT", "7 FOR I$ = 1 TO 2", "8 NEXT I$", "9 PRINT NOT \"a\" + 1", "9 PRINT (1", "10 X = ",
 ];
